@@ -19,6 +19,14 @@ theorem find?_key {l : List Session} {k : SessKey} {c : Session}
     (h : l.find? (fun c => c.key == k) = some c) : c ∈ l ∧ c.key = k :=
   ⟨List.mem_of_find?_eq_some h, by simpa using List.find?_some h⟩
 
+/-! ### `setPanic` touches the panic flag only (shared by the queue, leave and isolation proofs) -/
+
+theorem setPanic_queues (r : Realm) (p : Option String) : (r.setPanic p).queues = r.queues := by
+  unfold setPanic; split <;> rfl
+
+theorem setPanic_tasks (r : Realm) (p : Option String) : (r.setPanic p).tasks = r.tasks := by
+  unfold setPanic; split <;> rfl
+
 /-! ### the stages of `Realm.leave` -/
 
 /-- what the handler sends last -/
@@ -125,11 +133,22 @@ theorem stepOp_join (r : Realm) (k : SessKey) (isLocal : Bool) (details : Dict) 
                 queues := r.queues ++ [(k, [])] } : Realm).addTasks
         [.metaPub { topic := MetaEventSessionOnJoin, args := [.dict (r.cleanDetails details)] }] := rfl
 
-theorem stepOp_msg (r : Realm) (k : SessKey) (m : Msg) :
-    r.stepOp (.msg k m) =
+theorem recvMsg_eq (r : Realm) (k : SessKey) (m : Msg) :
+    r.recvMsg k m =
       match r.clients.find? (fun c => c.key == k) with
       | none => r
-      | some s => if r.ending.contains k || r.busy k then r else handleMsg r s m := rfl
+      | some s =>
+        if r.ending.contains k then r
+        else if r.busy k then (if s.buffered then { r with inbox := r.inbox ++ [(k, m)] } else r)
+        else handleMsg r s m := rfl
+
+theorem stepOp_msg (r : Realm) (k : SessKey) (m : Msg) : r.stepOp (.msg k m) = r.recvMsg k m := rfl
+
+theorem runTask_inMsg (r : Realm) (k : SessKey) (m : Msg) : r.runTask (.inMsg k m) = r.recvMsg k m := rfl
+
+theorem stepOp_buffer (r : Realm) (k : SessKey) :
+    r.stepOp (.buffer k) =
+      { r with clients := r.clients.map (fun c => if c.key == k then { c with buffered := true } else c) } := rfl
 
 theorem stepOp_drop (r : Realm) (k : SessKey) :
     r.stepOp (.drop k) =
@@ -162,13 +181,29 @@ theorem step_of_not_tick (r : Realm) (op : Op) (h : ∀ ms, op ≠ .tick ms) :
 /-! ### what a meta procedure can do to the realm -/
 
 /-- the state a meta procedure returns: unchanged, some sessions told to end (`killWhere`),
-    the details of one session replaced, or the testament table replaced -/
+    the details of one session replaced, or the testament table replaced — by a table each of whose
+    keys was a key of the old table or is the key of an attached client (`add_testament` stores
+    nothing for a caller that is not attached) -/
 inductive MetaEffect (r : Realm) : Realm → Prop
   | same : MetaEffect r r
   | kill (sel : Session → Bool) (g : Msg) (ka : Bool) : MetaEffect r (r.killWhere sel g ka).2
   | modify (k : SessKey) (d : Dict) :
       MetaEffect r { r with clients := r.clients.map (fun c => if c.key == k then { c with details := d } else c) }
-  | testaments (t : List (SessKey × TBucket)) : MetaEffect r { r with testaments := t }
+  | testaments (t : List (SessKey × TBucket))
+      (h : ∀ x ∈ t, (∃ y ∈ r.testaments, y.1 = x.1) ∨ ∃ c ∈ r.clients, c.key = x.1) :
+      MetaEffect r { r with testaments := t }
+
+/-- the guard of `add_testament`: the caller id is that of an attached client -/
+theorem attached_of_guard {r : Realm} {c : Nat}
+    (h : ¬(!(decide (sidBase ≤ c) && r.clients.any fun s => s.key == c - sidBase)) = true) :
+    sidBase ≤ c ∧ ∃ s ∈ r.clients, s.key = c - sidBase := by
+  simp only [Bool.not_eq_true', Bool.not_eq_false, Bool.and_eq_true, decide_eq_true_eq, List.any_eq_true,
+    beq_iff_eq] at h
+  exact h
+
+theorem key_of_find {l : List (SessKey × TBucket)} {key : SessKey} {p : SessKey × TBucket}
+    (h : l.find? (fun x => x.1 == key) = some p) : ∃ y ∈ l, y.1 = key :=
+  ⟨p, List.mem_of_find?_eq_some h, by simpa using List.find?_some h⟩
 
 theorem ite_cases {α : Sort _} {Q : α → Prop} {c : Prop} [Decidable c] {a b : α}
     (ha : c → Q a) (hb : ¬c → Q b) : Q (if c then a else b) := by
@@ -195,7 +230,16 @@ theorem metaProc_effect (r : Realm) (proc : String) (req : Nat) (details : Dict)
   all_goals first
     | exact MetaEffect.same
     | exact MetaEffect.modify _ _
-    | exact MetaEffect.testaments _
+    | (refine MetaEffect.testaments _ ?_
+       intro x hx
+       first
+         | exact Or.inl ⟨x, (List.mem_filter.mp hx).1, rfl⟩
+         | (rcases List.mem_append.mp hx with hx | hx
+            · exact Or.inl ⟨x, (List.mem_filter.mp hx).1, rfl⟩
+            · rw [List.mem_singleton.mp hx]
+              first
+                | exact Or.inr (attached_of_guard (by assumption)).2
+                | exact Or.inl (key_of_find (by assumption))))
     | exact MetaEffect.kill _ _ _
     | (apply MetaEffect.kill'; assumption)
 
